@@ -79,11 +79,31 @@ impl<const S: usize, const L: usize> Dfa<S, L> {
     }
 }
 
-#[derive(Clone, Copy, PartialEq, Eq)]
+#[derive(Clone, Copy)]
 pub struct Bytes {
     pub d: [u8; MAXB],
     pub n: usize,
 }
+
+/// equality of the first `n` bytes (bytes beyond `n` are stale)
+impl PartialEq for Bytes {
+    fn eq(&self, other: &Self) -> bool {
+        if self.n != other.n {
+            return false;
+        }
+        let mut same = true;
+        let mut i = 0;
+        while i < MAXB {
+            if i < self.n && self.d[i] != other.d[i] {
+                same = false;
+            }
+            i += 1;
+        }
+        same
+    }
+}
+
+impl Eq for Bytes {}
 
 impl Bytes {
     pub const fn new() -> Self {
